@@ -224,6 +224,12 @@ def run(ctx):
                                     before = snapshot(data)
                                 fkw = {'actual_path': src}
                                 ctx.bump('frame.actual_path')
+                            if len(list(df.columns)) >= 2 and rng.random() < 0.35:
+                                # a volatile column left out of the data and type checks (as lists, or with the helper)
+                                keep_ = [c_ for c_ in df.columns][:-1]
+                                sel_ = keep_ if rng.random() < 0.5 else rt.all_fields_except([list(df.columns)[-1]])
+                                fkw = dict(fkw, check_data=sel_, check_types=sel_)
+                                ctx.bump('frame.columns_excluded')
                             call = lambda ref=ref, fkw=fkw: rt.assertDataFrameCorrect(df, os.path.join(data, ref), kind=kind, **fkw)
                             call()
                         oc = 2 if regen_expected else 0
